@@ -110,8 +110,10 @@ HungRec ==
   /\ Is("hung")
   /\ Dev("FIOC1")
   /\ R.ts # <<>>
-  /\ \A t \in SeqToSet(R.ts) : t \in DOMAIN stk /\ Stuck(t)
-  /\ \E t \in SeqToSet(R.ts) : InWaitCycle(t)
+  \* the threads that never came back form a set closed under "waits for": each of them
+  \* waits for a singleton that another one of them is building (=> Stuck, and some of
+  \* them are on a cycle)
+  /\ LET H == SeqToSet(R.ts) IN \A t \in H : t \in DOMAIN stk /\ WaitOn(t) # t /\ WaitOn(t) \in H
   /\ devs' = devs \cup {"FIOC1"}                              \* the history ends here
   /\ UNCHANGED <<iocVars, kf>>
   /\ Next1
@@ -123,10 +125,32 @@ End ==
   /\ UNCHANGED <<iocVars, kf, devs>>
   /\ Next1
 
+\* Silent steps, with a hand-made partial-order reduction.  A Lookup only reads prov[key]
+\* and only enables later steps of its own thread (plus the waits-for graph, which matters at
+\* `hung` records and at cross-thread cycle panics); a RegLin only writes prov[key].  So it
+\* is enough to take a Lookup (a) right before the next record of its own thread, (b) while
+\* a registration of its key is waiting to take effect, (c) right before a record that
+\* looks at the waits-for graph; and a RegLin right before its own `ret` record, while
+\* some resolution of its key has not read the registry yet, or while another registration
+\* of the same key is in flight (their order matters).
+NextIsMine(t) ==
+  /\ l <= N
+  /\ \/ (R.k \in {"fstart", "ret"} /\ R.t = t)
+     \/ (R.k = "ret" /\ R.res = "panic" /\ R.pk = "cycle")
+     \/ /\ R.k = "hung" /\ t \in SeqToSet(R.ts)       \* in thread order: the order is irrelevant
+        /\ \A u \in SeqToSet(R.ts) : u < t => (u \notin DOMAIN stk \/ stk[u] = <<>> \/ Top(u).lk # "no")
 Silent ==
   /\ l <= N
-  /\ \/ \E t \in DOMAIN stk : Lookup(t)
-     \/ \E t \in DOMAIN preg : RegLin(t)
+  /\ \/ \E t \in DOMAIN stk :
+          /\ stk[t] # <<>>
+          /\ \/ NextIsMine(t)
+             \/ \E u \in DOMAIN preg : preg[u].key = Top(t).key /\ ~preg[u].lin
+          /\ Lookup(t)
+     \/ \E t \in DOMAIN preg :
+          /\ \/ NextIsMine(t)
+             \/ \E u \in DOMAIN stk : stk[u] # <<>> /\ Top(u).key = preg[t].key /\ Top(u).lk = "no"
+             \/ \E u \in DOMAIN preg \ {t} : preg[u].key = preg[t].key
+          /\ RegLin(t)
   /\ UNCHANGED <<l, kf, devs>>
 
 Next == New \/ CallReg \/ CallRes \/ FStart \/ FEnd \/ FPanic \/ Ret \/ HungRec \/ End \/ Silent
